@@ -381,8 +381,9 @@ def run(rep, tier):
 
     # --- (e) path-style and virtual-hosted-style name the same bucket/key (imported from C12's harnesses) ----
     from vlib import kspec
-    kspec.run_spec(rep, "C12", tier, budget_s=160, parallel=4,
-                   only=lambda s_: any(t in s_["harness"] for t in ("styles_agree_3_3", "vh_style_structure_3_4", "vh_style_structure_3_1", "path_style_structure_4")))
+    kspec.run_spec(rep, "C12", tier, budget_s=300, parallel=5,
+                   only=lambda s_: any(t in s_["harness"] for t in ("styles_agree_3_3", "vh_style_structure_3_4", "vh_style_structure_3_1", "path_style_structure_4",
+                                                                    "key_limit_1024")))
 
     rep.solver_time += ex.solver_time
     rep.transitions += ex.queries
